@@ -107,8 +107,15 @@ func drawConfig(tp *kernel.Tape, prop, tier string) Config {
 	if prop == "C09" && c.WCrash == 0 {
 		c.WCrash = 60
 	}
+	if f := cfgTweaks[prop]; f != nil {
+		f(&c, func(kind string, lo, hi int) int { return tp.Range(kind, lo, hi) })
+	}
 	return c
 }
+
+// cfgTweaks: property id -> adjustment of the drawn configuration (observer files register from init();
+// draw(kind, lo, hi) draws from the tape's cfg prefix).
+var cfgTweaks = map[string]func(c *Config, draw func(kind string, lo, hi int) int){}
 
 func (s *Sim) logger() logging.Logger {
 	l := logging.NewLogger()
@@ -375,6 +382,10 @@ func (s *Sim) run() {
 	s.lcfg.MaxAcctLookback = s.cfg.MaxAcctLookback
 	s.lcfg.DisableLedgerLRUCache = s.cfg.DisableLRU
 	s.lcfg.CatchpointInterval = s.cfg.CatchpointInterval
+	if s.cfg.CatchpointInterval > 0 {
+		s.lcfg.CatchpointTracking = 2 // track and always write catchpoint files
+		s.lcfg.CatchpointFileHistoryLength = 1000
+	}
 	s.init, s.genBal = Genesis(s.cfg.Online)
 	s.states[0] = genesisState(s.genBal, s.init.Block.BlockHeader)
 	s.blocks[0] = s.init.Block
@@ -449,6 +460,11 @@ func (s *Sim) run() {
 	}
 	if s.viol == nil && s.harness == "" {
 		s.fullCheck("end")
+	}
+	for _, o := range s.observers {
+		if f, ok := o.(Finisher); ok {
+			f.Finish(s)
+		}
 	}
 }
 
